@@ -40,8 +40,10 @@ def main():
     for job in data['jobs']:
         src, fn, sites = job['source'], job['filename'], job['sites']
         fresh = []
+        gnames = set()
         for ln, col, nm in sites:
-            _, nodes = analysis(src, fn)
+            top, nodes = analysis(src, fn)
+            gnames = set(getattr(top, '_global_names', {}))    # module variables created under `global`: kept beside the region tables
             fresh.append(answer(nodes, (ln, col), nm))
         hists = []
         for order in job['orders']:
@@ -61,7 +63,7 @@ def main():
         lint_hist = []
         for i, (ln, col, nm) in enumerate(sites if diags is not None else [], 1):
             f = json.loads(fresh[i - 1]) if fresh[i - 1] != 'E42' else None
-            vis_fresh = f is not None and f[1] is not None
+            vis_fresh = f is not None and (f[1] is not None or nm in gnames)
             # answer in the same vocabulary: visible <=> no E02
             lint_hist.append([i, 'visible' if (ln, col) not in e02 else 'undefined', 'visible' if vis_fresh else 'undefined'])
         # API-level sequences on one project: lint -> assist, assist -> lint, repeated identical requests
